@@ -69,7 +69,7 @@ def tree_hash():
 def entry_key(fid):
     # 'verifharness/props.C02_Slice[int8]' -> 'C02_Slice[int8]' ; type args separated by ','
     n = fid.split('props.', 1)[1]
-    return n.replace(' ', ',')
+    return n.replace(' ', ',').replace('verifharness/props.', '')
 
 
 def worker(job):
